@@ -384,6 +384,13 @@ fn corrupt_tar(field: &str) -> Vec<u8> {
 			f[512] = b'[';
 			f[513] = 0xFF;
 		}
+		x if x.starts_with("name:") => {
+			let name = x[5..].as_bytes();
+			for i in 0..100 {
+				f[h1 + i] = 0;
+			}
+			f[h1..h1 + name.len()].copy_from_slice(name);
+		}
 		x => panic!("tar field {x}"),
 	}
 	// fix up header checksums so that the members are still recognised where possible
@@ -560,6 +567,22 @@ fn run_bin(rt: &tokio::runtime::Runtime, dir: &Path, fmt: &str, field: &str, cla
 			std::fs::write(&p, corrupt_tar(field)).unwrap();
 			let r = probe_reader(rt, catch(|| TarTilesReader::open_path(&p).map(|r| r.boxed())));
 			let _ = std::fs::remove_file(&p);
+			r
+		}
+		"dir" => {
+			// a directory with one good tile, a tiles.json and one file with the given (out-of-range / malformed) name
+			let p = dir.join("c19_dir");
+			let _ = std::fs::remove_dir_all(&p);
+			std::fs::create_dir_all(p.join("1/0")).unwrap();
+			std::fs::write(p.join("1/0/1.pbf"), payload(1, 60, true)).unwrap();
+			std::fs::write(p.join("tiles.json"), META).unwrap();
+			let name = field.strip_prefix("name:").unwrap_or("2/1/1.pbf");
+			let f = p.join(name);
+			std::fs::create_dir_all(f.parent().unwrap()).unwrap();
+			std::fs::write(&f, payload(2, 40, true)).unwrap();
+			note_input(200);
+			let r = probe_reader(rt, catch(|| versatiles_container::DirectoryTilesReader::open_path(&p).map(|r| r.boxed())));
+			let _ = std::fs::remove_dir_all(&p);
 			r
 		}
 		"mvt" => {
